@@ -25,14 +25,18 @@ Definition spec_of (c : cfg) : ispec :=
 (* history literals *)
 Definition mkmd (deleted : bool) (expires : option N) (nonidx : bool) : kvmd :=
   {| kv_deleted := deleted; kv_expires := expires; kv_nonindexable := nonidx |}.
-Definition mke (k : bytes) (md : kvmd) (v : bytes) (voff : N) (hv : bytes) : entry :=
-  {| e_key := k; e_md := md; e_val := v; e_voff := voff; e_hval := hv |}.
+(* the history literals carry the first 4 bytes of each value digest only (that is what is observed
+   of HVal); the remaining 28 bytes are irrelevant to every comparison and set to 0 *)
+Definition mke (k : bytes) (md : kvmd) (v : bytes) (voff : N) (h4 : bytes) : entry :=
+  {| e_key := k; e_md := md; e_val := v; e_voff := voff; e_hval := h4 ++ repeat 0 28 |}.
 Definition mktx (id ts : N) (extra : option bytes) (es : list entry) : tx :=
   {| t_id := id; t_ts := ts; t_md := {| md_trunc := None; md_extra := extra |}; t_entries := es |}.
 Definition mkr (seek end_ prefix : bytes) (iseek iend desc igndel ignexp : bool) (off : N) : rspec :=
   {| r_seek := seek; r_end := end_; r_prefix := prefix; r_incl_seek := iseek; r_incl_end := iend;
      r_desc := desc; r_ign_deleted := igndel; r_ign_expired := ignexp; r_offset := off |}.
-Definition mkfx (a b c : bool) : fixes := {| fx_copy_key := a; fx_own_txid := b; fx_tomb_deleted := c |}.
+Definition mkfx (a b c d : bool) : fixes :=
+  {| fx_copy_key := a; fx_own_txid := b; fx_tomb_deleted := c; fx_kvs_cap := d |}.
+Definition mklim (k t : N) : limits := {| maxk := k; maxtx := t |}.
 
 (* what is observed of a ValueRef *)
 Record oref := mko {
@@ -49,8 +53,6 @@ Definition oref_of_vref (r : vref) : oref :=
      o_txmd := txmd_bytes (r_txmd r) |}.
 Definition oref_of_hit (x : hit) : oref := oref_of_vref (vref_of x).
 
-Definition rmap {A B} (f : A -> B) (r : res A) : res B :=
-  match r with Ok a => Ok (f a) | Err e => Err e | Panic => Panic end.
 Definition pair_eqb {A B} (ea : A -> A -> bool) (eb : B -> B -> bool) (x y : A * B) : bool :=
   ea (fst x) (fst y) && eb (snd x) (snd y).
 
@@ -111,12 +113,12 @@ Definition model_answer (snapfix : bool) (now : N) (tb : tbt) (q : query) : obs 
 
 (* the indexer is resumed with everything up to b committed, for each b of `batches` in turn, and
    accumulates up to maxbulk transactions per indexSince *)
-Fixpoint run_batches (fx : fixes) (s : ispec) (maxk : N) (h : history) (maxbulk : nat)
+Fixpoint run_batches (fx : fixes) (s : ispec) (lim : limits) (h : history) (maxbulk : nat)
          (batches : list nat) (st : istate) : res istate :=
   match batches with
   | [] => Ok st
-  | b :: r => do st' <- run fx s maxk (firstn b h) (repeat maxbulk b) st;
-              run_batches fx s maxk h maxbulk r st'
+  | b :: r => do st' <- run fx s lim (firstn b h) (repeat maxbulk b) st;
+              run_batches fx s lim h maxbulk r st'
   end.
 
 Inductive case :=
@@ -124,7 +126,7 @@ Inductive case :=
 | CSpec (c : cfg) (now : N) (h : history) (n : N) (qs : list (query * obs))
 (* same, the indexer having been driven through a known bulk schedule; `stalled`: indexing never
    reached the last transaction of the last batch *)
-| CModel (fx : fixes) (snapfix : bool) (c : cfg) (maxk now : N) (h : history)
+| CModel (fx : fixes) (snapfix : bool) (c : cfg) (lim : limits) (now : N) (h : history)
          (maxbulk : nat) (batches : list nat) (stalled : bool) (qs : list (query * obs))
 (* valueRefFrom(tx, hc, bytes) *)
 | CVRef (tx hc : N) (b : bytes) (out : res oref)
@@ -137,9 +139,9 @@ Definition case_ok (c : case) : bool :=
       wf_history h &&
       (let ix := index_of_history (spec_of c) (firstn (N.to_nat n) h) in
        forallb (fun qo => obs_eqb (spec_answer now ix (fst qo)) (snd qo)) qs)
-  | CModel fx snapfix c maxk now h maxbulk batches stalled qs =>
+  | CModel fx snapfix c lim now h maxbulk batches stalled qs =>
       wf_history h &&
-      match run_batches fx (spec_of c) maxk h maxbulk batches istate_init with
+      match run_batches fx (spec_of c) lim h maxbulk batches istate_init with
       | Ok st =>
           if tb_ts (is_tb st) =? N.of_nat (last batches 0%nat)
           then negb stalled &&
